@@ -786,7 +786,7 @@ async fn drive_async<'g>(
                     }
                     if rs.signals_left > 0
                         && rs.intr_tx.is_some()
-                        && (rs.family_counts_calls_exactly || rs.settled)
+                        && (rs.family_counts_calls_exactly || rs.settled || rs.spec.signals_anytime)
                     {
                         actions.push(Action::Interrupt);
                     }
